@@ -131,6 +131,9 @@ def stage_tables(work, tier, seed):
     nodis = {v["id"]: v["nconf"] == 0 for v in verdicts}
     return {"verdicts": verdicts, "wf": [dict(id=v["id"], wf=v["wf"]) for v in verdicts],
             "nodis": nodis, "gtext": gtext,
+            "divergences": ["Automaton.Build differs from the dumped table: %s %s" % (v["id"], v["autodiff"][:3])
+                            for v in verdicts if v.get("autodiff")][:20],
+            "nautomata_reproduced": sum(1 for v in verdicts if not v.get("autodiff") and v["nstates"] <= 40),
             "errs": [dict(id=e["id"], cls=e["class"], msg=e["msg"][:200]) for e in errs],
             "states": sum(r["distinct"] for r in rs), "transitions": sum(r["states"] for r in rs),
             "ncases": len(cases), "ndumps": len(verdicts),
@@ -1652,7 +1655,36 @@ def stage_mci_glr(work, tier, seed):
             "samples": [dict(table=c["id"], grammar=c["grammar"]) for c in cases[:2]]}
 
 
-STAGES = {"mci_glr": stage_mci_glr, "ast": stage_ast, "codegen": stage_codegen, "builder": stage_builder, "determinism": stage_determinism, "regen": stage_regen, "pipeline": stage_pipeline, "lex": stage_lex, "resolve": stage_resolve, "prec": stage_prec, "tables": stage_tables, "lr": stage_lr, "mci_lr": stage_mci_lr, "glr": stage_glr}
+
+def stage_mc_automaton(work, tier, seed):
+    """Design level C04: Automaton.tla with the work list popped in ANY order, for the
+    small grammars of the corpus and the three table types (MC_Automaton)."""
+    maxstates = 7 if tier == "quick" else 9
+    cases = []
+    for gid, g, tags in corpus(tier, seed):
+        if "meta" in tags or not ({"family", "curated"} & tags):
+            continue
+        text = G.render(g)
+        for tt in ("lalr", "pager", "rn"):
+            cases.append({"id": "%s|%s" % (gid, tt), "grammar": text,
+                          "cfg": {"algo": "glr", "tt": tt, "raw": True, "ps": False, "pse": False},
+                          "meta": {"nodis": False, "plain": True}})
+    pres = run.run_vdrive(work, "mc_automaton", cases, shards=4)
+    allp = work.path("mc_automaton", "all.dumps.ndjson")
+    n = 0
+    with open(allp, "w") as f:
+        for p in pres:
+            for d in run.read_ndjson(p + ".dumps.ndjson"):
+                if len(d["t"]["states"]) <= maxstates and d["t"]["augl"] < 0:
+                    f.write(json.dumps(d) + "\n")
+                    n += 1
+    r = run.run_tlc(work, "MC_Automaton", "MC_Automaton.cfg", {"DUMPS": allp, "MAXSTATES": str(maxstates)},
+                    workers=run.NCPU, timeout=3000)
+    return {"verdicts": r["verdicts"], "states": r["distinct"], "transitions": r["states"], "ntables": n,
+            "maxstates": maxstates, "samples": [dict(table=c["id"], grammar=c["grammar"]) for c in cases[:1]]}
+
+
+STAGES = {"mc_automaton": stage_mc_automaton, "mci_glr": stage_mci_glr, "ast": stage_ast, "codegen": stage_codegen, "builder": stage_builder, "determinism": stage_determinism, "regen": stage_regen, "pipeline": stage_pipeline, "lex": stage_lex, "resolve": stage_resolve, "prec": stage_prec, "tables": stage_tables, "lr": stage_lr, "mci_lr": stage_mci_lr, "glr": stage_glr}
 
 
 # ---------------------------------------------------------------------------
@@ -1701,7 +1733,7 @@ def coverage(prop, res, stage_names):
                                                    "ntables", "maxlen", "wall", "nambiguous", "ninscope", "nlrglr",
                                                    "ncells_exercised", "ngrammars_with_conflicts",
                                                    "mc_lex_configurations", "mc_lex_ok", "nmulti_survivors",
-                                                   "outcomes", "mc_pipeline_ok", "mc_regen_ok", "nregenerations", "nkeys", "nsugar_uses", "nrejected", "programs", "nqueries", "nruns", "npaired", "ngenerated", "nshapes", "ncombos", "nmodel_runs") if k in r}
+                                                   "outcomes", "mc_pipeline_ok", "mc_regen_ok", "nregenerations", "nkeys", "nsugar_uses", "nrejected", "programs", "nqueries", "nruns", "npaired", "ngenerated", "nshapes", "ncombos", "nmodel_runs", "nautomata_reproduced", "maxstates") if k in r}
         cov["per_stage"][st]["divergences"] = len(r.get("divergences", []))
     cov["states"] = max(cov["states"], 1)
     cov["transitions"] = max(cov["transitions"], 1)
